@@ -1,10 +1,16 @@
 /-
 The definitions generated from the Python source by gen/py2lean.py (AgVerif.Gen.PyLeb) equal
 the hand-written model AgVerif.Leb that the C03 property theorems are about.
+
+The proofs are written to survive behaviour-preserving rewrites of the source: generated definitions
+(helpers included) are unfolded through the simp set `pygen` instead of by name, every comparison of a
+byte is decided by `omega` from a case split on the byte, and both sides are brought to ARITHMETIC normal
+form (`x & 0x7F` = `x % 128`, `x << k` = `x * 2^k`, `a | b` = `a + b` when `a < 2^k ∣ b`), so operand
+order, `|=` against `= … |`, hoisted constants, renamed locals and inlined/outlined helpers do not matter.
 -/
 import AgVerif.Gen.PyLeb
 import AgVerif.Model.Leb
-import AgVerif.Proof.PyInt
+import AgVerif.Proof.PyArith
 import AgVerif.Proof.Leb
 set_option linter.unusedSimpArgs false
 namespace AgVerif.PyLeb
@@ -16,32 +22,106 @@ def rd {α : Type} (cast : α → Int) (bs : List Nat) : Option (α × Nat) → 
   | none => none
   | some (v, n) => some (cast v, bs.drop n)
 
+/-! ### arithmetic normal form -/
+
+theorem nat_or_add (a b k : Nat) (ha : a < 2 ^ k) (hb : b % 2 ^ k = 0) : a ||| b = a + b := by
+  have e : b = 2 ^ k * (b / 2 ^ k) := by have := Nat.div_add_mod b (2 ^ k); omega
+  rw [e, Nat.or_comm, ← Nat.two_pow_add_eq_or_of_lt ha]; omega
+theorem nat_or_add' (a b k : Nat) (ha : a < 2 ^ k) (hb : b % 2 ^ k = 0) : b ||| a = b + a := by
+  rw [Nat.or_comm, nat_or_add a b k ha hb]; omega
+
+theorem or7 (a b : Nat) (ha : a < 128) (hb : b % 128 = 0) : a ||| b = a + b := nat_or_add a b 7 ha hb
+theorem or7' (a b : Nat) (ha : a < 128) (hb : b % 128 = 0) : b ||| a = b + a := nat_or_add' a b 7 ha hb
+theorem or14 (a b : Nat) (ha : a < 16384) (hb : b % 16384 = 0) : a ||| b = a + b := nat_or_add a b 14 ha hb
+theorem or14' (a b : Nat) (ha : a < 16384) (hb : b % 16384 = 0) : b ||| a = b + a := nat_or_add' a b 14 ha hb
+theorem or21 (a b : Nat) (ha : a < 2097152) (hb : b % 2097152 = 0) : a ||| b = a + b := nat_or_add a b 21 ha hb
+theorem or21' (a b : Nat) (ha : a < 2097152) (hb : b % 2097152 = 0) : b ||| a = b + a := nat_or_add' a b 21 ha hb
+theorem or28 (a b : Nat) (ha : a < 268435456) (hb : b % 268435456 = 0) : a ||| b = a + b := nat_or_add a b 28 ha hb
+theorem or28' (a b : Nat) (ha : a < 268435456) (hb : b % 268435456 = 0) : b ||| a = b + a := nat_or_add' a b 28 ha hb
+
+theorem and7F (x : Nat) : x &&& 127 = x % 128 := Bits.and_7F x
+theorem and7F' (x : Nat) : 127 &&& x = x % 128 := by rw [Nat.and_comm]; exact Bits.and_7F x
+theorem andM31 (x : Nat) : x &&& 2147483647 = x % 2147483648 := by
+  have := Nat.and_two_pow_sub_one_eq_mod x 31; simpa using this
+theorem andM31' (x : Nat) : 2147483647 &&& x = x % 2147483648 := by rw [Nat.and_comm]; exact andM31 x
+theorem shl_mul (x k : Nat) : x <<< k = x * 2 ^ k := Nat.shiftLeft_eq x k
+theorem zero_or (x : Nat) : 0 ||| x = x := Nat.zero_or x
+theorem or_zero (x : Nat) : x ||| 0 = x := Nat.or_zero x
+
+theorem le_cast_lit (a n : Nat) : ((a : Int) ≤ (no_index (OfNat.ofNat n) : Int)) ↔ a ≤ n := by
+  show ((a : Int) ≤ ((n : Nat) : Int)) ↔ _
+  omega
+theorem lt_cast_lit (a n : Nat) : ((a : Int) < (no_index (OfNat.ofNat n) : Int)) ↔ a < n := by
+  show ((a : Int) < ((n : Nat) : Int)) ↔ _
+  omega
+theorem ge_cast_lit (a n : Nat) : ((a : Int) ≥ (no_index (OfNat.ofNat n) : Int)) ↔ a ≥ n := by
+  show ((a : Int) ≥ ((n : Nat) : Int)) ↔ _
+  omega
+theorem eq_cast_lit (a n : Nat) : ((a : Int) = (no_index (OfNat.ofNat n) : Int)) ↔ a = n := by
+  show ((a : Int) = ((n : Nat) : Int)) ↔ _
+  omega
+
+/-- unfold what was generated and bring it to arithmetic; `omega` decides the tests -/
+macro "gen_norm" : tactic => `(tactic|
+  simp (disch := omega) [pygen, getByte, rd, Spec.Leb.payload, -Int.natCast_shiftLeft, -Int.natCast_shiftRight,
+    Int.max_def, band_7F, band_7F', band_M31, band_M31', shl_eq, shr_eq,
+    borA7, borB7, borA14, borB14, borA21, borB21, borA28, borB28, bor_zero, zero_bor,
+    if_pos, if_neg])
+
+theorem readUleb_trunc1 (b0 : Nat) (h0 : 128 ≤ b0) : readUleb [b0] = none := by
+  have : b0 > 0x7F := by omega
+  simp [readUleb, this]
+theorem readUleb_trunc2 (b0 b1 : Nat) (h0 : 128 ≤ b0) (h1 : 128 ≤ b1) : readUleb [b0, b1] = none := by
+  have : b0 > 0x7F := by omega
+  have : b1 > 0x7F := by omega
+  simp [readUleb, *]
+theorem readUleb_trunc3 (b0 b1 b2 : Nat) (h0 : 128 ≤ b0) (h1 : 128 ≤ b1) (h2 : 128 ≤ b2) :
+    readUleb [b0, b1, b2] = none := by
+  have : b0 > 0x7F := by omega
+  have : b1 > 0x7F := by omega
+  have : b2 > 0x7F := by omega
+  simp [readUleb, *]
+theorem readUleb_trunc4 (b0 b1 b2 b3 : Nat) (h0 : 128 ≤ b0) (h1 : 128 ≤ b1) (h2 : 128 ≤ b2) (h3 : 128 ≤ b3) :
+    readUleb [b0, b1, b2, b3] = none := by
+  have : b0 > 0x7F := by omega
+  have : b1 > 0x7F := by omega
+  have : b2 > 0x7F := by omega
+  have : b3 > 0x7F := by omega
+  simp [readUleb, *]
+
+set_option maxHeartbeats 1000000 in
 theorem gen_readuleb128_eq (bs : List Nat) :
     readuleb128 bs = rd (fun v : Nat => (v : Int)) bs (readUleb bs) := by
   match bs with
-  | [] => rfl
-  | [b0] =>
-    simp only [readuleb128, readUleb, getByte, band_cast_lit, bor_cast, shl_cast, gt_cast_lit]
-    by_cases h0 : b0 > 127 <;> simp [h0, rd]
-  | [b0, b1] =>
-    simp only [readuleb128, readUleb, getByte, band_cast_lit, bor_cast, shl_cast, gt_cast_lit]
-    by_cases h0 : b0 > 127 <;> by_cases h1 : b1 > 127 <;> simp [h0, h1, rd]
-  | [b0, b1, b2] =>
-    simp only [readuleb128, readUleb, getByte, band_cast_lit, bor_cast, shl_cast, gt_cast_lit]
-    by_cases h0 : b0 > 127 <;> by_cases h1 : b1 > 127 <;> by_cases h2 : b2 > 127 <;>
-      simp [h0, h1, h2, rd]
-  | [b0, b1, b2, b3] =>
-    simp only [readuleb128, readUleb, getByte, band_cast_lit, bor_cast, shl_cast, gt_cast_lit]
-    by_cases h0 : b0 > 127 <;> by_cases h1 : b1 > 127 <;> by_cases h2 : b2 > 127 <;>
-      by_cases h3 : b3 > 127 <;> simp [h0, h1, h2, h3, rd]
-  | b0 :: b1 :: b2 :: b3 :: b4 :: r =>
-    simp only [readuleb128, readUleb, getByte, band_cast_lit, bor_cast, shl_cast, gt_cast_lit]
-    by_cases h0 : b0 > 127 <;> by_cases h1 : b1 > 127 <;> by_cases h2 : b2 > 127 <;>
-      by_cases h3 : b3 > 127 <;> simp [h0, h1, h2, h3, rd]
+  | [] => simp [pygen, getByte, rd, readUleb]
+  | b0 :: r0 =>
+    by_cases h0 : b0 < 128
+    · rw [readUleb_1 b0 r0 h0]; gen_norm <;> omega
+    · match r0 with
+      | [] => rw [readUleb_trunc1 b0 (by omega)]; gen_norm
+      | b1 :: r1 =>
+        by_cases h1 : b1 < 128
+        · rw [readUleb_2 b0 b1 r1 (by omega) h1]; gen_norm <;> omega
+        · match r1 with
+          | [] => rw [readUleb_trunc2 b0 b1 (by omega) (by omega)]; gen_norm
+          | b2 :: r2 =>
+            by_cases h2 : b2 < 128
+            · rw [readUleb_3 b0 b1 b2 r2 (by omega) (by omega) h2]; gen_norm <;> omega
+            · match r2 with
+              | [] => rw [readUleb_trunc3 b0 b1 b2 (by omega) (by omega) (by omega)]; gen_norm
+              | b3 :: r3 =>
+                by_cases h3 : b3 < 128
+                · rw [readUleb_4 b0 b1 b2 b3 r3 (by omega) (by omega) (by omega) h3]; gen_norm <;> omega
+                · match r3 with
+                  | [] => rw [readUleb_trunc4 b0 b1 b2 b3 (by omega) (by omega) (by omega) (by omega)]; gen_norm
+                  | b4 :: r4 =>
+                    rw [readUleb_5_raw b0 b1 b2 b3 b4 r4 (by omega) (by omega) (by omega) (by omega)]
+                    gen_norm <;> omega
 
 theorem gen_readuleb128p1_eq (bs : List Nat) :
     readuleb128p1 bs = rd id bs (readUlebP1 bs) := by
-  simp only [readuleb128p1, readUlebP1, gen_readuleb128_eq]
+  have h := gen_readuleb128_eq bs
+  simp only [readuleb128p1, readUlebP1, h]
   cases readUleb bs with
   | none => rfl
   | some p => rfl
@@ -49,42 +129,47 @@ theorem gen_readuleb128p1_eq (bs : List Nat) :
 theorem gen_readsleb128_eq (bs : List Nat) :
     readsleb128 bs = rd id bs (readSleb bs) := by
   match bs with
-  | [] => rfl
+  | [] => simp [pygen, getByte, rd, readSleb, readSlebLoop]
   | [b0] =>
-    simp only [readsleb128, readSleb, readSlebLoop, slebFix, getByte]
-    simp [-Int.natCast_shiftLeft, Int.max_def, band_cast_lit, band_lit_cast, bor_cast, bor_lit_cast,
-      shl_cast, shr_eq, gt_cast_lit, ne_cast_lit, rd]
+    simp only [pygen, readSleb, readSlebLoop, slebFix, getByte]
+    simp [-Int.natCast_shiftLeft, Int.max_def, band_cast_lit, band_lit_cast, bor_cast, bor_lit_cast, bor_cast_lit,
+      shl_cast, shr_eq, gt_cast_lit, ne_cast_lit, eq_cast_lit, le_cast_lit, andM31, andM31', rd]
     by_cases h0 : b0 &&& 128 = 0 <;>
       simp [-Int.natCast_shiftLeft, h0, rd] <;>
-      (try (split <;> simp_all [-Int.natCast_shiftLeft]))
+      (try (split <;> simp_all [-Int.natCast_shiftLeft])) <;>
+      (try (rename_i hq; split at hq <;> simp_all [-Int.natCast_shiftLeft]))
   | [b0, b1] =>
-    simp only [readsleb128, readSleb, readSlebLoop, slebFix, getByte]
-    simp [-Int.natCast_shiftLeft, Int.max_def, band_cast_lit, band_lit_cast, bor_cast, bor_lit_cast,
-      shl_cast, shr_eq, gt_cast_lit, ne_cast_lit, rd]
+    simp only [pygen, readSleb, readSlebLoop, slebFix, getByte]
+    simp [-Int.natCast_shiftLeft, Int.max_def, band_cast_lit, band_lit_cast, bor_cast, bor_lit_cast, bor_cast_lit,
+      shl_cast, shr_eq, gt_cast_lit, ne_cast_lit, eq_cast_lit, le_cast_lit, andM31, andM31', rd]
     by_cases h0 : b0 &&& 128 = 0 <;> by_cases h1 : b1 &&& 128 = 0 <;>
       simp [-Int.natCast_shiftLeft, h0, h1, rd] <;>
-      (try (split <;> simp_all [-Int.natCast_shiftLeft]))
+      (try (split <;> simp_all [-Int.natCast_shiftLeft])) <;>
+      (try (rename_i hq; split at hq <;> simp_all [-Int.natCast_shiftLeft]))
   | [b0, b1, b2] =>
-    simp only [readsleb128, readSleb, readSlebLoop, slebFix, getByte]
-    simp [-Int.natCast_shiftLeft, Int.max_def, band_cast_lit, band_lit_cast, bor_cast, bor_lit_cast,
-      shl_cast, shr_eq, gt_cast_lit, ne_cast_lit, rd]
+    simp only [pygen, readSleb, readSlebLoop, slebFix, getByte]
+    simp [-Int.natCast_shiftLeft, Int.max_def, band_cast_lit, band_lit_cast, bor_cast, bor_lit_cast, bor_cast_lit,
+      shl_cast, shr_eq, gt_cast_lit, ne_cast_lit, eq_cast_lit, le_cast_lit, andM31, andM31', rd]
     by_cases h0 : b0 &&& 128 = 0 <;> by_cases h1 : b1 &&& 128 = 0 <;> by_cases h2 : b2 &&& 128 = 0 <;>
       simp [-Int.natCast_shiftLeft, h0, h1, h2, rd] <;>
-      (try (split <;> simp_all [-Int.natCast_shiftLeft]))
+      (try (split <;> simp_all [-Int.natCast_shiftLeft])) <;>
+      (try (rename_i hq; split at hq <;> simp_all [-Int.natCast_shiftLeft]))
   | [b0, b1, b2, b3] =>
-    simp only [readsleb128, readSleb, readSlebLoop, slebFix, getByte]
-    simp [-Int.natCast_shiftLeft, Int.max_def, band_cast_lit, band_lit_cast, bor_cast, bor_lit_cast,
-      shl_cast, shr_eq, gt_cast_lit, ne_cast_lit, rd]
+    simp only [pygen, readSleb, readSlebLoop, slebFix, getByte]
+    simp [-Int.natCast_shiftLeft, Int.max_def, band_cast_lit, band_lit_cast, bor_cast, bor_lit_cast, bor_cast_lit,
+      shl_cast, shr_eq, gt_cast_lit, ne_cast_lit, eq_cast_lit, le_cast_lit, andM31, andM31', rd]
     by_cases h0 : b0 &&& 128 = 0 <;> by_cases h1 : b1 &&& 128 = 0 <;> by_cases h2 : b2 &&& 128 = 0 <;> by_cases h3 : b3 &&& 128 = 0 <;>
       simp [-Int.natCast_shiftLeft, h0, h1, h2, h3, rd] <;>
-      (try (split <;> simp_all [-Int.natCast_shiftLeft]))
+      (try (split <;> simp_all [-Int.natCast_shiftLeft])) <;>
+      (try (rename_i hq; split at hq <;> simp_all [-Int.natCast_shiftLeft]))
   | b0 :: b1 :: b2 :: b3 :: b4 :: r =>
-    simp only [readsleb128, readSleb, readSlebLoop, slebFix, getByte]
-    simp [-Int.natCast_shiftLeft, Int.max_def, band_cast_lit, band_lit_cast, bor_cast, bor_lit_cast,
-      shl_cast, shr_eq, gt_cast_lit, ne_cast_lit, rd]
+    simp only [pygen, readSleb, readSlebLoop, slebFix, getByte]
+    simp [-Int.natCast_shiftLeft, Int.max_def, band_cast_lit, band_lit_cast, bor_cast, bor_lit_cast, bor_cast_lit,
+      shl_cast, shr_eq, gt_cast_lit, ne_cast_lit, eq_cast_lit, le_cast_lit, andM31, andM31', rd]
     by_cases h0 : b0 &&& 128 = 0 <;> by_cases h1 : b1 &&& 128 = 0 <;> by_cases h2 : b2 &&& 128 = 0 <;> by_cases h3 : b3 &&& 128 = 0 <;> by_cases h4 : b4 &&& 128 = 0 <;>
       simp [-Int.natCast_shiftLeft, h0, h1, h2, h3, h4, rd] <;>
-      (try (split <;> simp_all [-Int.natCast_shiftLeft]))
+      (try (split <;> simp_all [-Int.natCast_shiftLeft])) <;>
+      (try (rename_i hq; split at hq <;> simp_all [-Int.natCast_shiftLeft]))
 
 /-- canonical form of a writer result of the hand model: the bytes as Python ints -/
 def wr : Option (List Nat) → Option (List Int)
@@ -94,8 +179,11 @@ def wr : Option (List Nat) → Option (List Int)
 theorem packBOk_cast (m : Nat) (h : m < 256) : packBOk (m : Int) = true := by
   simp [packBOk]; omega
 
+theorem lit_or_80 (x : Nat) : 128 ||| x = x ||| 128 := Nat.or_comm _ _
+theorem lit_and_7F (x : Nat) : 127 &&& x = x &&& 127 := Nat.and_comm _ _
+
 theorem writeuleb128_while1_eq (fuel : Nat) : ∀ (n : Nat) (buff : List Int), n >>> 7 < fuel →
-    writeuleb128_while1 fuel (n : Int) ((n >>> 7 : Nat) : Int) buff
+    writeuleb128_while1 fuel buff ((n >>> 7 : Nat) : Int) (n : Int)
       = some (buff ++ (writeUlebNat n).map (fun b : Nat => (b : Int))) := by
   induction fuel with
   | zero => intro n buff h; omega
@@ -103,7 +191,8 @@ theorem writeuleb128_while1_eq (fuel : Nat) : ∀ (n : Nat) (buff : List Int), n
     intro n buff h
     have hm : n &&& 127 < 128 := by rw [Bits.and_7F]; omega
     unfold writeuleb128_while1
-    simp only [band_cast_lit, bor_cast_lit, shr_cast, gt_cast_lit]
+    simp only [pygen, band_cast_lit, band_lit_cast, bor_cast_lit, bor_lit_cast, shr_cast, gt_cast_lit, lt_cast_lit,
+      lit_or_80, lit_and_7F]
     by_cases hr : n >>> 7 > 0
     · have hlt : (n >>> 7) >>> 7 < fuel := by
         simp only [Nat.shiftRight_eq_div_pow] at *; omega
@@ -112,7 +201,7 @@ theorem writeuleb128_while1_eq (fuel : Nat) : ∀ (n : Nat) (buff : List Int), n
       simp [-Int.natCast_shiftRight, hr, packBOk_cast _ hb, ih (n >>> 7) _ hlt]
     · have hb : (n &&& 127) < 256 := by omega
       rw [writeUlebNat, dif_neg hr]
-      simp [hr, packBOk_cast _ hb]
+      simp [-Int.natCast_shiftRight, hr, packBOk_cast _ hb]
 
 theorem gen_writeuleb128_eq (value : Int) : writeuleb128 value = wr (writeUleb value) := by
   unfold writeuleb128 writeUleb
@@ -126,7 +215,7 @@ theorem decide_ne_bne (a b : Int) : decide (a ≠ b) = (a != b) := by
   by_cases h : a = b <;> simp [h]
 
 theorem writesleb128_while1_eq (fuel : Nat) : ∀ (value remaining : Int) (buff : List Int) (e : Int),
-    writesleb128_while1 (fuel + 1) value remaining true buff e
+    writesleb128_while1 (fuel + 1) buff e true remaining value
       = (match writeSlebLoop fuel value remaining e with
          | none => none
          | some l => some (buff ++ l.map (fun b : Nat => (b : Int)))) := by
@@ -139,9 +228,9 @@ theorem writesleb128_while1_eq (fuel : Nat) : ∀ (value remaining : Int) (buff 
     obtain ⟨m, hc, hm⟩ : ∃ m : Nat, value % 128 = (m : Int) ∧ m < 128 :=
       ⟨(value % 128).toNat, by omega, by omega⟩
     rw [writesleb128_while1, writeSlebLoop]
-    simp only [band_7F, band_1, shr_eq]
+    simp only [band_7F, band_7F', band_1, shr_eq]
     rw [hc]
-    simp only [bor_cast_lit, Int.toNat_natCast]
+    simp only [bor_cast_lit, bor_lit_cast, Int.toNat_natCast, lit_or_80]
     have e1 : (decide (remaining ≠ e) || decide (remaining % 2 ≠ value / 2 ^ 6 % 2))
         = (remaining != e || remaining % 2 != value / 64 % 2) := by
       have : (2 : Int) ^ 6 = 64 := by decide
@@ -154,8 +243,8 @@ theorem writesleb128_while1_eq (fuel : Nat) : ∀ (value remaining : Int) (buff 
     rw [e1, e2]
     generalize (remaining != e || remaining % 2 != value / 64 % 2) = hM
     cases hM
-    · simp [packBOk_cast m (by omega), writesleb128_while1]
-    · simp [packBOk_cast _ hb1, ih]
+    · simp [packBOk_cast m (by omega), writesleb128_while1, bor_cast_lit]
+    · simp [packBOk_cast _ hb1, ih, bor_cast_lit]
       cases writeSlebLoop fuel remaining (remaining / 128) e <;> simp
 
 theorem band_minInt64' (x : Int) :
